@@ -444,6 +444,24 @@ impl Service for LazyService {
 
 static SERVICE_CALLS: AtomicUsize = AtomicUsize::new(0);
 
+/// SO_LINGER with a zero timeout: closing the socket sends RST instead of FIN
+fn set_linger_zero(s: &StdStream) {
+    use std::os::fd::AsRawFd;
+    #[repr(C)]
+    struct Linger {
+        l_onoff: i32,
+        l_linger: i32,
+    }
+    extern "C" {
+        fn setsockopt(fd: i32, level: i32, name: i32, value: *const std::ffi::c_void, len: u32) -> i32;
+    }
+    let l = Linger { l_onoff: 1, l_linger: 0 };
+    // SOL_SOCKET = 1, SO_LINGER = 13 (Linux)
+    unsafe {
+        setsockopt(s.as_raw_fd(), 1, 13, &l as *const Linger as *const std::ffi::c_void, std::mem::size_of::<Linger>() as u32);
+    }
+}
+
 fn rt(workers: usize) -> tokio::runtime::Runtime {
     tokio::runtime::Builder::new_multi_thread()
         .worker_threads(workers)
@@ -573,8 +591,12 @@ pub fn conc_op(kind: &str, conns: &[&str]) -> Option<(String, String)> {
     // connection j has received everything it is owed
     let mut after: Vec<Option<usize>> = vec![];
     let mut late: Vec<Option<usize>> = vec![];
+    // `rst=1`: this peer connects and resets its connection (SO_LINGER 0, close) before the
+    // server has accepted it; it sends nothing
+    let mut rst: Vec<bool> = vec![];
     for c in conns {
         let f: Vec<&str> = c.split(' ').filter(|s| !s.is_empty()).collect();
+        rst.push(field("rst", &f) == "1");
         let svc = p_list(field("svc", &f), Svc::parse)?;
         let evs = p_list(field("r", &f), ReadEv::parse)?;
         after.push(match field("after", &f) {
@@ -639,6 +661,22 @@ pub fn conc_op(kind: &str, conns: &[&str]) -> Option<(String, String)> {
     let seen_peers: Arc<Mutex<Vec<SocketAddr>>> = Default::default();
     let (sc, cl, sp) = (scripts.clone(), calls.clone(), seen_peers.clone());
     let kind_s = kind.to_string();
+    // the resetting peers come and go while the connections wait in the listen queue
+    let mut rst_locals: Vec<SocketAddr> = vec![];
+    for is_rst in &rst {
+        if *is_rst {
+            if let Ok(s) = StdStream::connect(addr) {
+                if let Ok(l) = s.local_addr() {
+                    rst_locals.push(l);
+                }
+                set_linger_zero(&s);
+                drop(s);
+            }
+        }
+    }
+    if !rst_locals.is_empty() {
+        std::thread::sleep(Duration::from_millis(30));
+    }
     let server = runtime.spawn(async move {
         let listener = tokio::net::TcpListener::from_std(std_listener).unwrap();
         let new_service = move |peer: SocketAddr| {
@@ -677,6 +715,7 @@ pub fn conc_op(kind: &str, conns: &[&str]) -> Option<(String, String)> {
         let wait_for = after[i];
         let connect_after = late[i];
         let finished = finished.clone();
+        let is_rst = rst[i];
         handles.push(std::thread::spawn(move || -> Option<(SocketAddr, Vec<u8>)> {
             let done = |r: Option<(SocketAddr, Vec<u8>)>| {
                 let (m, cv) = &*finished;
@@ -684,6 +723,9 @@ pub fn conc_op(kind: &str, conns: &[&str]) -> Option<(String, String)> {
                 cv.notify_all();
                 r
             };
+            if is_rst {
+                return done(Some(("0.0.0.0:0".parse().unwrap(), vec![])));
+            }
             if let Some(j) = connect_after {
                 {
                     let (m, cv) = &*finished;
@@ -768,10 +810,12 @@ pub fn conc_op(kind: &str, conns: &[&str]) -> Option<(String, String)> {
     server.abort();
     runtime.shutdown_timeout(Duration::from_millis(200));
     // every connection got its own service instance, created with that peer's address
-    let peers = seen_peers.lock().unwrap().clone();
+    // (a peer that reset its connection may or may not have been given a service instance)
+    let unspecified: SocketAddr = "0.0.0.0:0".parse().unwrap();
+    let peers: Vec<SocketAddr> = seen_peers.lock().unwrap().iter().copied().filter(|p| !rst_locals.contains(p)).collect();
     let mut sorted_p = peers.clone();
     sorted_p.sort();
-    let mut sorted_l = locals.clone();
+    let mut sorted_l: Vec<SocketAddr> = locals.iter().copied().filter(|l| *l != unspecified).collect();
     sorted_l.sort();
     let peer_ok = sorted_p == sorted_l;
     let res: Vec<String> = outs
